@@ -2,6 +2,7 @@
 ProxyKmipClient / KMIPProxy / KMIPProtocol wired in process to a real KmipSession) with canary
 secrets, log capture and leak scan.  See vlib/props/c20.py for the spec format."""
 import copy
+import logging
 import os
 import sqlite3
 import traceback
@@ -481,6 +482,9 @@ def run_server(spec):
     cap.clear()
     case = Case(spec.get("seed", 0))
     messages = []
+    kmip_logger = logging.getLogger("kmip")
+    if spec.get("debug"):
+        kmip_logger.setLevel(logging.DEBUG)
     try:
         case.harvest_db(server)
         for step in spec.get("steps", []):
@@ -511,7 +515,12 @@ def run_server(spec):
         entries = list(cap.entries)
         case.judge(entries, messages)
         case.classes.append("log-records>=INFO:%s" % ("some" if entries else "none"))
+        case.below_info = cap.below_info
+        if spec.get("debug"):
+            case.classes.append("control:debug-enabled:%s" % (
+                "records-below-INFO-seen-and-ignored" if cap.below_info else "NO-DEBUG-RECORDS"))
     finally:
+        kmip_logger.setLevel(logging.INFO)
         server.close()
         cap.clear()
     return finish(case)
@@ -522,7 +531,7 @@ def finish(case):
     for k in sorted(case.kinds_in_flight):
         classes.append("canary-in-flight-at-failure:" + k)
     return {"buckets": case.buckets, "nontrivial": case.nt_failures > 0, "classes": classes,
-            "kinds": case.reg.kinds()}
+            "kinds": case.reg.kinds(), "below_info": getattr(case, "below_info", 0)}
 
 
 # ----------------------------------------------------------------------------- client mode
